@@ -129,6 +129,11 @@ def gen_jobs(ctx):
             if len(set(zip(*c1))) > 1 and len(set(zip(*c2))) > 1:
                 jobs.append(("shim.all_intersections", [enc_arr(c1), enc_arr(c2)], "isect"))
     jobs.extend(zoo_jobs())
+    # overlapping sub-arcs of one parent curve (every relative position, same / reversed direction, elevated): the coincident flag,
+    # the number of columns and the exception type must agree (2400 such pairs agree on the unchanged tree)
+    from checks import c20
+    for c in c20.gen_overlaps(ctx):
+        jobs.append(("shim.all_intersections", [enc_arr(c["c1"]), enc_arr(c["c2"])], "isect"))
     return jobs
 
 
